@@ -9,6 +9,10 @@ one worker, per-worker context never used concurrently, hand-back exactly once a
 reported instead of blocking, destroy joins all workers.  No runnable thread while a thread is unfinished = deadlock.
 Schedules: complete stateless DFS for the smallest configurations, preemption-bounded DFS for larger ones, random
 schedules (with spurious wake-ups) beyond.
+
+Operation sequences: src/c09_model.c drives the serial reference pool (threadpool_serial.c) and the pthread pool with
+generated submit / dequeue / get_status programs (partial drains followed by further submits, failing items) and compares
+every call with a FIFO model.
 """
 import os, json, subprocess, random, time
 import vcommon, vbuild
@@ -19,6 +23,125 @@ PROP = "C09"
 
 def harness():
     return vbuild.build_harness("vsched", "sched", ["src/vsched.cc"], cxx=True)
+
+
+def model_harness():
+    return vbuild.build_harness("c09_model", "asan", ["src/c09_model.c"])
+
+
+def model_programs(tier, seed, scale=1.0):
+    """operation sequences for src/c09_model.c: (impl, failmask, prog); impl 0 = serial reference pool, W = pthread pool"""
+    rng = random.Random(seed * 7919 + 1)
+    out = []
+    for i in range(int((60000 if tier == "quick" else 2000000) * scale)):
+        impl = rng.choice([0, 0, 0, 1, 2, 3, 4])
+        N = rng.choice([1, 2, 3, 4, 5, 6, 8, 12, 20])
+        ops, s, d = [], 0, 0
+        wd = rng.choice([1, 2, 4])           # weight of D against S: long queues vs. eager draining
+        while s < N and len(ops) < 6 * N:
+            c = rng.choice("S" * 4 + "D" * wd + "G")
+            ops.append(c)
+            s += c == "S"
+        ops += rng.choice(["", "D", "DD", "G"])
+        fm = 0
+        if rng.random() < 0.3:
+            fm = 1 << rng.randrange(N)
+            if rng.random() < 0.3:
+                fm |= 1 << rng.randrange(N)
+        out.append((impl, fm, "".join(ops)))
+    return out
+
+
+def model_nontrivial(prog):
+    """a dequeue that leaves at least one item queued, followed by another submit (the queue is neither empty nor fresh)"""
+    q = 0
+    partial = False
+    for c in prog:
+        if c == "S":
+            if partial:
+                return True
+            q += 1
+        elif c == "D" and q > 0:
+            q -= 1
+            partial = q > 0
+    return False
+
+
+def run_model_chunk(args):
+    binp, progs, limit = args
+    inp = "".join("%d %x %s\n" % p for p in progs).encode()
+    try:
+        p = subprocess.run([binp], input=inp, stdout=subprocess.PIPE, stderr=subprocess.PIPE, timeout=limit)
+        out, err, rc = p.stdout.decode(errors="replace").splitlines(), p.stderr.decode(errors="replace"), p.returncode
+    except subprocess.TimeoutExpired as e:
+        out, err, rc = (e.stdout or b"").decode(errors="replace").splitlines(), "", -99
+    return dict(out=out, err=err[-3000:], rc=rc, n=len(progs))
+
+
+def model_one(binp, prog, limit=60):
+    o = run_model_chunk((binp, [prog], limit))
+    if o["rc"] == -99:
+        return None
+    if o["rc"] != 0:
+        return "harness exit %s: %s" % (o["rc"], o["err"][-600:])
+    if o["out"] and o["out"][0].startswith("FAIL"):
+        return o["out"][0][5:]
+    return ""
+
+
+def model_shrink(binp, prog):
+    """greedy deletion of single operations / failure bits while the program still fails"""
+    impl, fm, ops = prog
+    msg = model_one(binp, prog)
+    changed = True
+    rounds = 0
+    while changed and rounds < 200:
+        changed = False
+        for i in range(len(ops)):
+            rounds += 1
+            cand = (impl, fm, ops[:i] + ops[i + 1:])
+            m = model_one(binp, cand)
+            if m:
+                ops, msg, changed = cand[2], m, True
+                break
+    if fm and model_one(binp, (impl, 0, ops)):
+        fm = 0
+        msg = model_one(binp, (impl, 0, ops))
+    return (impl, fm, ops), msg
+
+
+def run_model(tier, seed, res, scale=1.0):
+    binp = model_harness()
+    progs = model_programs(tier, seed, scale)
+    chunks = [progs[i::32] for i in range(32)]
+    outs = vcommon.pmap(run_model_chunk, [(binp, c, 200 if tier == "quick" else 3000) for c in chunks if c], 16)
+    failing = []
+    for c, o in zip([c for c in chunks if c], outs):
+        done = len(o["out"])
+        res.evaluations += done
+        for prog, line in zip(c, o["out"]):
+            res.add_class("model_serial_pool" if prog[0] == 0 else "model_pthread_pool")
+            if prog[1]:
+                res.add_class("model_failing_item")
+            if model_nontrivial(prog[2]):
+                res.add_class("model_partial_drain_then_submit")
+                res.nt_count_model = getattr(res, "nt_count_model", 0) + 1
+            if line.startswith("FAIL"):
+                failing.append(prog)
+        if o["rc"] == -99:
+            res.add_class("budget_stops")
+        elif o["rc"] != 0 and done < len(c):
+            failing.append(c[done])      # the harness died (sanitizer report) on this program
+    seen = set()
+    for prog in failing[:5]:
+        small, msg = model_shrink(binp, prog)
+        if not msg or small in seen:
+            continue
+        seen.add(small)
+        case = dict(model=True, impl=small[0], failmask=small[1], prog=small[2], found_as=list(prog), fail=msg[:1500])
+        what = "%s: program %s%s: %s" % ("serial pool" if small[0] == 0 else "pthread pool with %d workers" % small[0], small[2],
+                                        (" failing item mask 0x%x" % small[1]) if small[1] else "", msg[:300])
+        res.violations.append((what, vcommon.save_replay(PROP, case, what)))
 
 
 def run_job(args):
@@ -143,7 +266,8 @@ def main(tier, seed, scale=1.0):
                 res.add_class("corpus_replayed")
                 for v in r.violations:
                     res.violations.append((v[0] + " (regression case)", v[1]))
-    res.nt_count = nt
+    run_model(tier, seed, res, scale)
+    res.nt_count = nt + getattr(res, "nt_count_model", 0)
     res.exhaustive = True
     res.extra["complete_enumerations"] = complete_cfgs[:60]
     res.extra["n_complete_enumerations"] = len(complete_cfgs)
@@ -154,7 +278,12 @@ def main(tier, seed, scale=1.0):
                 "thread that holds no lock; DFS executions are distinct by construction; oracle = history invariants checked in the execution + "
                 "deadlock detection by the scheduler.  Block processor on the same pool (files fed through begin/append/end/finish with 1-3 workers, "
                 "backlog 2-8): every call returns, every file reads back, and with a compressor that fails in a worker on the first or last block "
-                "/ tail of one file (every file, both positions) some call of the submitter must fail and destroy must join all workers")
+                "/ tail of one file (every file, both positions) some call of the submitter must fail and destroy must join all workers.  "
+                "Model-based sequences (src/c09_model.c, ASan): random programs of submit / dequeue / get_status over 1-20 items, with and "
+                "without failing items, run on the serial reference pool and on the pthread pool (1-4 workers, native scheduling) and "
+                "compared call by call with a FIFO model (order, exactly-once, NULL only when empty or failed, status and refused submits "
+                "after a failure); non-trivial there = a dequeue that leaves the queue non-empty followed by another submit; failures "
+                "are shrunk by deleting operations")
     res.samples = ["block processor W=2 backlog=3 files 4096A,4096B,100c, compressor fails on the tail of file 2 (fragment block = last item)", "W=1 N=2 fail=item0 prog=SSDD: all schedules", "W=2 N=3 prog=SSDSDD: preemption bound 2", "W=3 N=5 random program 'SSGDSDSDD' with a failing item"]
     res.assumptions = ["interleavings at the granularity of the pool's mutex/condvar operations under a sequentially consistent scheduler",
                        "threadpool.c is compiled unmodified with -include of a macro header that renames the pthread calls"]
@@ -167,6 +296,11 @@ def replay(path):
     d = vcommon.load_replay(path)
     c = d["case"]
     res = Result(PROP)
+    if c.get("model"):
+        m = model_one(model_harness(), (c["impl"], c["failmask"], c["prog"]))
+        if m:
+            res.violations.append((m[:300], path))
+        return res
     if "choices" not in c:
         return res
     cmd = [binp, "run", str(c["W"]), str(c["N"]), str(c["failmask"]), c["prog"], "-1"] + [str(x) for x in c["choices"]]
